@@ -1,9 +1,14 @@
-"""C06 — the wire is little-endian whatever the host byte order (runtime half: the
-BP_BIG_ENDIAN paths of lib/c/bitproto.c; theorem at (B,E)=(BE,BE), tie at (BE,LE))."""
+"""C06 — the wire is little-endian whatever the host byte order.
+Runtime half: the BP_BIG_ENDIAN paths of lib/c/bitproto.c (theorem at (B,E)=(BE,BE), tie at (BE,LE)).
+Optimization-mode half: the value-based big-endian branch of -O output (theorems C04_c_be_*,
+C04_endian_select re-stated in props/C06.v); executed through the C04 harness under
+--endian big and --endian both with -DBP_BIG_ENDIAN (and little / default for comparison)."""
 import cside
+from opstage import opmode_stage
 
 LEVEL = "proof"
 
 
 def run(ck):
     cside.run_c06(ck)
+    opmode_stage(ck, "C06.v", (25, 15, 3), (400, 600, 5), "opmode_big_endian_branch")
